@@ -11,6 +11,7 @@ package props
 //               attempts on which hosts are allowed.
 
 import (
+	"context"
 	"fmt"
 	"net"
 	"regexp"
@@ -23,6 +24,7 @@ import (
 	v2 "mosn.io/mosn/pkg/config/v2"
 	"mosn.io/mosn/pkg/types"
 	"mosn.io/mosn/pkg/upstream/cluster"
+	"mosn.io/pkg/variable"
 
 	"verif/harness/lab"
 )
@@ -111,7 +113,13 @@ var c17Names = []string{"x-h1", "x-h2", "x-h3", "x-h4"}
 func c17GenHops(rng *lab.Rand, level string) ([]hop, []string) {
 	var adds []hop
 	for i := rng.Intn(3); i > 0; i-- {
-		adds = append(adds, hop{Key: c17Names[rng.Intn(len(c17Names))], Val: level + rng.Alnum(3), Append: rng.Bool()})
+		h := hop{Key: c17Names[rng.Intn(len(c17Names))], Val: level + rng.Alnum(3), Append: rng.Bool()}
+		if rng.Chance(1, 3) {
+			// the value is a %variable% (resolved per request): the same two variables recur at every level and in request and
+			// response additions, with independent append flags
+			h.Val = "%" + c17Vars[rng.Intn(len(c17Vars))][0] + "%"
+		}
+		adds = append(adds, h)
 	}
 	var rm []string
 	if rng.Chance(1, 3) {
@@ -120,14 +128,40 @@ func c17GenHops(rng *lab.Rand, level string) ([]hop, []string) {
 	return adds, rm
 }
 
+// c17Vars: variables the harness registers (constant getters); a header addition whose value is %name% carries the variable's value
+var c17Vars = [][2]string{{"verif_c17_a", "va1"}, {"verif_c17_b", "vb22"}}
+
+var c17VarsOnce sync.Once
+
+func c17RegisterVars() {
+	c17VarsOnce.Do(func() {
+		for _, v := range c17Vars {
+			val := v[1]
+			_ = variable.Register(variable.NewStringVariable(v[0], nil, func(ctx context.Context, _ *variable.IndexedValue, _ interface{}) (string, error) {
+				return val, nil
+			}, nil, 0))
+		}
+	})
+}
+
+func c17Resolve(v string) string {
+	for _, x := range c17Vars {
+		if v == "%"+x[0]+"%" {
+			return x[1]
+		}
+	}
+	return v
+}
+
 // applyLevel is the statement's semantics of one level: additions in order (append joins with ','), then removals.
 func applyLevel(h map[string]string, adds []hop, rm []string) {
 	for _, a := range adds {
 		k := strings.ToLower(a.Key)
+		val := c17Resolve(a.Val)
 		if cur, ok := h[k]; ok && cur != "" && a.Append {
-			h[k] = cur + "," + a.Val
+			h[k] = cur + "," + val
 		} else {
-			h[k] = a.Val
+			h[k] = val
 		}
 	}
 	for _, r := range rm {
@@ -137,6 +171,7 @@ func applyLevel(h map[string]string, adds []hop, rm []string) {
 
 func c17Engine(c *lab.Ctx) {
 	c.Rule("running MOSN, per protocol ~26 generated routes over the product of action fields; per route several requests (with/without query, pre-set header values), on every second action route also a retried request whose two attempts must both receive the configured request; timeout-source probes at T/2 and 2T for the global timeout, and per-try timeout sources (header alone, with a global timeout header, with a protocol-supplied global timeout) judged by the number of upstream attempts; retry policies x per-attempt outcome sequences, sequential clients; distinct = (protocol, action kind, fields used, outcome class)")
+	c17RegisterVars()
 	rng := c.Rand("cfg")
 	protos := engineProtos
 	routesBy := map[string][]c17Route{}
